@@ -104,7 +104,10 @@ def run(chk):
     maps = []
     for bb, m in sorted(copies.items()):
         if set(m) == {"WordBoundary", "NotWordBoundary", "Unknown"} and all(len(v) == 1 for v in m.values()):
-            maps.append((bb, {k: list(v)[0] for k, v in m.items()}))
+            mm = {k: list(v)[0] for k, v in m.items()}
+            if len(set(mm.values())) == 1 and list(mm.values())[0] not in parser_map:
+                continue   # the same constant under every label and not a boundary symbol (the escape character of a tag loop): not a label table
+            maps.append((bb, mm))
     chk.floor("R04.2", "writer symbol tables", len(maps), 2)
     for k, (bb, m) in enumerate(maps):
         inv_ok = all(parser_map.get(ch) == lab for lab, ch in m.items()) and len(set(m.values())) == 3
